@@ -7,7 +7,7 @@ from odata_query import ast
 from odata_query.roundtrip import AstToODataVisitor
 import checks.c09 as c09
 
-PROP_MODS = ["ODataVerif.Tie.Sql", "ODataVerif.Tie.ExceptionTree", "ODataVerif.Props.C12"]
+PROP_MODS = ["ODataVerif.Tie.Sql", "ODataVerif.Tie.SqlTemplates", "ODataVerif.Tie.ExceptionTree", "ODataVerif.Tie.ParserTables", "ODataVerif.Props.C12", "ODataVerif.Props.C10Image", "ODataVerif.Props.C06Image"]
 
 def rel_filters():
     """paths and lambdas over the relational schema (P root): well-typed by construction"""
@@ -27,6 +27,12 @@ def rel_filters():
         ast.Compare(ast.Eq(), I("zz"), one), ast.Compare(ast.Eq(), A("o", "zz"), one), ast.Compare(ast.Eq(), A("zz", "n"), one),
         ast.CollectionLambda(I("kids"), ast.Any(), ast.Lambda(I("k"), ast.Compare(ast.Eq(), A("k", "zz"), one))),
         ast.CollectionLambda(I("zz"), ast.Any(), None),
+        # a name the COLLECTION's model does not have although an enclosing model does (P.a, P.s, O.n)
+        ast.CollectionLambda(I("kids"), ast.Any(), ast.Lambda(I("k"), ast.Compare(ast.Eq(), A("k", "a"), one))),
+        ast.CollectionLambda(I("kids"), ast.All(), ast.Lambda(I("k"), ast.Compare(ast.Eq(), A("k", "s"), sc.S("a")))),
+        ast.CollectionLambda(I("tags"), ast.Any(), ast.Lambda(I("t"), ast.Compare(ast.Eq(), A("t", "a"), one))),
+        ast.CollectionLambda(A("o", "ps"), ast.Any(), ast.Lambda(I("q"), ast.Compare(ast.Eq(), A("q", "n"), one))),
+        ast.CollectionLambda(I("kids"), ast.Any(), ast.Lambda(I("k"), ast.Compare(ast.Eq(), I("a"), one))),
         ast.Compare(ast.Eq(), sc.call("length", I("zz")), one), sc.call("contains", I("zz"), sc.S("a")),
         # two relationships with the same attribute name on different models (P.o -> O, P.w -> W, W.o -> Tag):
         ast.BoolOp(ast.And(), ast.Compare(ast.Eq(), A("o", "name"), sc.S("x")), ast.Compare(ast.Eq(), A("w", "o", "name"), sc.S("y"))),
@@ -62,11 +68,17 @@ def has_path_or_lambda(n):
     return False
 
 UNKNOWN = {"zz"}
+# (variable, name): names unknown on the collection's model but known on an enclosing one
+UNKNOWN_IN_LAMBDA = {("k", "a"), ("k", "s"), ("t", "a"), ("q", "n")}
 def mentions_unknown(n):
     import dataclasses
     if isinstance(n, ast.Identifier) and n.name in UNKNOWN:
         return True
     if isinstance(n, ast.Attribute) and n.attr in UNKNOWN:
+        return True
+    if isinstance(n, ast.Attribute) and isinstance(n.owner, ast.Identifier) and (n.owner.name, n.attr) in UNKNOWN_IN_LAMBDA:
+        return True
+    if isinstance(n, ast.Lambda) and isinstance(n.expression, ast.Compare) and isinstance(n.expression.left, ast.Identifier) and n.expression.left.name == "a":
         return True
     if dataclasses.is_dataclass(n):
         for f in dataclasses.fields(n):
@@ -78,6 +90,24 @@ def mentions_unknown(n):
                 return True
     return False
 
+def wrong_model_field(n):
+    """`w/o/name`: W.o leads to Tag, which has `label` but no `name` (P.o leads to O, which has `name`)"""
+    import dataclasses
+    if isinstance(n, ast.Attribute) and n.attr == "name" and isinstance(n.owner, ast.Attribute) and n.owner.attr == "o" \
+            and isinstance(n.owner.owner, ast.Identifier) and n.owner.owner.name == "w":
+        return True
+    if isinstance(n, ast.Attribute) and n.attr == "label" and isinstance(n.owner, ast.Identifier) and n.owner.name == "o":
+        return True          # `o/label`: P.o leads to O, which has no `label`
+    if dataclasses.is_dataclass(n):
+        for f in dataclasses.fields(n):
+            v = getattr(n, f.name)
+            if isinstance(v, list):
+                if any(wrong_model_field(x) for x in v if isinstance(x, ast._Node)):
+                    return True
+            elif isinstance(v, ast._Node) and wrong_model_field(v):
+                return True
+    return False
+
 def real_roundtrip(node):
     try:
         r = AstToODataVisitor().visit(node)
@@ -86,7 +116,7 @@ def real_roundtrip(node):
     return "ok " + r.encode("utf-8", "surrogatepass").hex() if isinstance(r, str) else "nonstr " + type(r).__name__
 
 def run(ctx):
-    common.build_and_audit(ctx, PROP_MODS, gen=lambda c: gen_tables.generate(["Sql", "ExceptionTree"]))
+    common.build_and_audit(ctx, PROP_MODS, gen=lambda c: gen_tables.generate(["Sql", "SqlTemplates", "ExceptionTree", "ParserTables"]))
     rng = ctx.rng
     nodes = sc.node_kind_matrix() + sc.operator_nestings()
     g = gens_typed.TypedGen(rng)
@@ -161,7 +191,7 @@ def run(ctx):
             ctx.evaluations += 1
             if not admissible(name, r, n):
                 viol.append((name, n, r, "outcome is neither a translation nor a library exception"))
-            if name.startswith("sa-") and mentions_unknown(n) and not (r.startswith("lib InvalidFieldException") or (name == "sa-core" and r == "notimpl")):
+            if name.startswith("sa-") and (mentions_unknown(n) or wrong_model_field(n)) and not (r.startswith("lib InvalidFieldException") or (name == "sa-core" and r == "notimpl")):
                 viol.append((name, n, r, "unknown field not reported as InvalidFieldException"))
     # the same-name relationship collision: `w/o/name` does not exist (W.o -> Tag has `label`), whatever was traversed before
     ctx.extra["judged"] = dict(sorted(tally.items()))
